@@ -22,7 +22,10 @@ pub fn engine_evaluate(settings: &Settings, ip: IpAddr, random: Option<&[u8]>) -
 
 /// Number of rules the engine holds after loading (rules dropped at load time are not counted)
 pub fn engine_rule_count(settings: &Settings) -> Option<usize> {
-    settings.rules_engine.as_ref().map(|e| e.config().rule.len())
+    settings
+        .rules_engine
+        .as_ref()
+        .map(|e| e.config().rule.len())
 }
 
 /// JSON rendering of an optional client random for hook events: `null` or a hex string
